@@ -191,9 +191,10 @@ class App(dict):
 
 
 class Sim:
-    def __init__(self, *, n_tokens=2, users=('u1', 'u2'), seed_draws=None, worker_cores=16, start_ms=1_700_000_000_000):
+    def __init__(self, *, n_tokens=2, users=('u1', 'u2'), seed_draws=None, worker_cores=16, start_ms=1_700_000_000_000,
+                 buffered_insert_select=False):
         self.m = boot()
-        self.cfg = dict(n_tokens=n_tokens, users=list(users), worker_cores=worker_cores)
+        self.cfg = dict(n_tokens=n_tokens, users=list(users), worker_cores=worker_cores, buffered_insert_select=buffered_insert_select)
         self._now = start_ms
         self.draws = list(seed_draws or [])
         self._draw_i = 0
@@ -238,6 +239,8 @@ class Sim:
         self.engine = eng
         eng.clock = lambda: self._now / 1000.0
         eng.rand_source = self.draw_float
+        # verdict semantics: per-row evaluation of INSERT..SELECT from the target table (see DESIGN, minimysql notes)
+        eng.insert_select_same_table_buffered = bool(self.cfg.get('buffered_insert_select', False))
         s = eng.connect()
         try:
             # product versions and resources for everything an n1 instance config can name
